@@ -632,7 +632,7 @@ fn any_pair(max: usize, a: &[u8; 3], b: &[u8; 3]) -> Pair {
     }
 }
 
-/// `==`, `!=`, `const_eq`, `== str` are equality of the contents, whatever the
+/// `==`, `!=` are equality of the contents, whatever the
 /// representations (Text level; the derived impl forwards to `Repr`'s).
 fn eq_content_case(max: usize) {
     let a = any_ascii::<3>();
@@ -641,9 +641,6 @@ fn eq_content_case(max: usize) {
     let want_eq = same_bytes(&p.a[..p.la], &p.b[..p.lb]);
     assert!((p.ta == p.tb) == want_eq);
     assert!((p.ta != p.tb) == !want_eq);
-    assert!((p.ta.0 == p.tb.0) == want_eq);
-    assert!(p.ta.const_eq(&p.tb) == want_eq);
-    assert!((p.ta == *as_str_unchecked(&p.b[..p.lb])) == want_eq);
     kani::cover!(
         want_eq & (p.ka == Kind::Static) & (p.kb == Kind::Heap) & (p.la == max),
         "equal: static vs heap"
@@ -672,6 +669,36 @@ fn c32_eq_is_content_eq_len2() {
 #[kani::unwind(6)]
 fn c32_eq_is_content_eq_len3() {
     eq_content_case(3);
+}
+
+/// `const_eq` and `Text == str` are equality of the contents too.
+fn const_eq_case(max: usize) {
+    let a = any_ascii::<3>();
+    let b = any_ascii::<3>();
+    let p = any_pair(max, &a, &b);
+    let want_eq = same_bytes(&p.a[..p.la], &p.b[..p.lb]);
+    assert!(p.ta.const_eq(&p.tb) == want_eq);
+    assert!((p.ta == *as_str_unchecked(&p.b[..p.lb])) == want_eq);
+    kani::cover!(
+        want_eq & (p.ka == Kind::Heap) & (p.kb == Kind::Static) & (p.la == max),
+        "equal: heap vs static"
+    );
+    kani::cover!(
+        !want_eq & (p.la == p.lb) & (p.la == max),
+        "same length, different content"
+    );
+}
+
+#[kani::proof]
+#[kani::unwind(6)]
+fn c32_const_eq_is_content_eq_len2() {
+    const_eq_case(2);
+}
+
+#[kani::proof]
+#[kani::unwind(6)]
+fn c32_const_eq_is_content_eq_len3() {
+    const_eq_case(3);
 }
 
 /// `cmp` / `partial_cmp` are the byte-lexicographic order of the contents.
